@@ -19,12 +19,13 @@ _UID = re.compile(r"uid=(\S+)")
 def _key_uid(m):
     # a task is identified by the 32-bit hash of its UID; a generated UID is printed as that hash, unless a string with the
     # same hash has been interned by then - which depends on what has been read so far, not on what the task is
-    return "uid=#%08x" % xxh.xxh32(unesc(m.group(1)))
+    a = re.match(r"echse/autouid-0x([0-9a-f]{8})@echse$", m.group(1))
+    return "uid=#" + (a.group(1) if a else "%08x" % xxh.xxh32(unesc(m.group(1))))
 
 
 def dump(srv, data, chunking):
     lines = srv.case(OPTS + (" " + chunking if chunking else ""), data)
-    return [_UID.sub(_key_uid, _AUTO.sub(lambda m: "uid=#" + m.group(1), l)) for l in lines]
+    return [_UID.sub(_key_uid, l) for l in lines]
 
 
 def cut_positions(data, rng, tier):
